@@ -27,10 +27,13 @@ V8 == {VK("rsa", "R", "ok", "none"), VK("k1", "A1", "ok", "good")}
 V9 == {}
 Old0 == {}
 Old1 == {[kid |-> "k0", key |-> "A0", exp |-> -48]}
+Old2 == {[kid |-> "k1", key |-> "A1", exp |-> -48]}     \* the ID of a current key listed as an old key too
+OldR == {[kid |-> "rsa", key |-> "R", exp |-> -48]}     \* an old key of another algorithm
 
 Resp(name, vu, vk, old, nsig) == [name |-> name, vu |-> vu, vkeys |-> vk, old |-> old, nsig |-> nsig]
 Dummy == Resp("s1", 24, V1, Old0, "none")
 NoD == [kind |-> "error", r |-> Dummy]
+EmptyD == [kind |-> "empty", r |-> Dummy]               \* the client hands back a zero ServerKeys and no error
 NoN == [kind |-> "error", rs |-> <<>>]
 Other(s) == IF s = "s1" THEN "s2" ELSE "s1"
 
@@ -39,32 +42,49 @@ Base == [mode |-> "check", expected |-> "s1", now |-> 0, r |-> Dummy, kid |-> "k
 
 ScCheck ==
     {[Base EXCEPT !.mode = "check", !.expected = e, !.r = Resp("s1", vu, vk, old, "none")] :
-        e \in {"s1", "s2"}, vu \in {-24, 0, 24}, vk \in {V1, V2, V3, V4, V5, V6, V7, V8, V9}, old \in {Old0, Old1}}
+        e \in {"s1", "s2"}, vu \in {-24, 0, 24}, vk \in {V1, V2, V3, V4, V5, V6, V7, V8, V9}, old \in {Old0, Old1, Old2, OldR}}
 
 ScPubKey ==
     {[Base EXCEPT !.mode = "pubkey", !.r = Resp("s1", 24, V1, Old1, "none"), !.kid = k, !.ts = t] :
         k \in {"k1", "k0", "k9"}, t \in {-72, -48, -24, 24, 48}}
+    \cup  \* one ID both current (until -24) and old (expired at 48)
+    {[Base EXCEPT !.mode = "pubkey", !.r = Resp("s1", -24, V1, {[kid |-> "k1", key |-> "A1", exp |-> 48]}, "none"),
+                  !.kid = "k1", !.ts = t] : t \in {-48, -24, 24, 48, 72}}
 
 DirectResps(s) ==
     {Resp(nm, vu, vk, old, "none") : nm \in {s, Other(s)}, vu \in {-24, 24},
-                                      vk \in {V1, V2, V5, V6, V7}, old \in {Old0, Old1}}
-NotaryLists(s) ==
-    LET small == {Resp(s, vu, vk, Old0, "none") : vu \in {-24, 24}, vk \in {V1, V2}}
-        stranger == Resp(Other(s), 24, V1, Old0, "none")
+                                      vk \in {V1, V2, V5, V6, V7, V9}, old \in {Old0, Old1, Old2}}
+NotaryLists(s, small) ==
+    LET stranger == Resp(Other(s), 24, V1, Old0, "none")
     IN  {<<>>, <<stranger>>} \cup {<<r>> : r \in small} \cup {<<stranger, r>> : r \in small}
+NotarySmall(s) == {Resp(s, vu, vk, Old0, "none") : vu \in {-24, 24}, vk \in {V1, V2}}
+\* the fallback path driven through every acceptance clause as well
+NotaryRich(s) == {Resp(s, vu, vk, old, "none") : vu \in {-24, 24}, vk \in {V1, V2, V4, V5, V6, V7, V9}, old \in {Old0, Old1, Old2}}
 ScDirect ==
     {[Base EXCEPT !.mode = "direct", !.d = d, !.n = n, !.srv2 = s2, !.local = lo] :
-        d \in {NoD} \cup {[kind |-> "resp", r |-> r] : r \in DirectResps("s1")},
-        n \in {NoN} \cup {[kind |-> "list", rs |-> rs] : rs \in NotaryLists("s1")},
+        d \in {NoD, EmptyD} \cup {[kind |-> "resp", r |-> r] : r \in DirectResps("s1")},
+        n \in {NoN} \cup {[kind |-> "list", rs |-> rs] : rs \in NotaryLists("s1", NotarySmall("s1"))},
         s2 \in BOOLEAN, lo \in (IF Tier = "quick" THEN {FALSE} ELSE BOOLEAN)}
+    \cup
+    {[Base EXCEPT !.mode = "direct", !.d = d, !.n = [kind |-> "list", rs |-> rs], !.srv2 = FALSE, !.local = FALSE] :
+        d \in {NoD, EmptyD, [kind |-> "resp", r |-> Resp("s1", 24, V2, Old0, "none")],
+                            [kind |-> "resp", r |-> Resp("s2", 24, V1, Old0, "none")]},
+        rs \in NotaryLists("s1", NotaryRich("s1"))}
 
 PerspResps(s) ==
-    {Resp(s, vu, vk, old, ns) : vu \in {-24, 24}, vk \in {V1, V2, V5}, old \in {Old0, Old1},
+    {Resp(s, vu, vk, old, ns) : vu \in {-24, 24}, vk \in {V1, V2, V5, V7}, old \in {Old0, Old1, Old2},
                                 ns \in {"good", "bad", "unknown", "none"}}
+\* notary = origin: the notary answers about itself; its single signature under its key ID is at the same
+\* time the self-signature (good iff made with the listed key) and the notary signature (good iff made
+\* with the key the client knows for the notary, P1)
+NotarySelf ==
+    {Resp("notary", vu, {VK("p1", c[1], "ok", c[2])}, Old0, c[3]) : vu \in {-24, 24},
+        c \in {<<"P1", "good", "good">>, <<"PX", "good", "bad">>, <<"PX", "bad", "good">>, <<"P1", "bad", "bad">>}}
 ScPersp ==
     {[Base EXCEPT !.mode = "persp", !.p = p] :
         p \in {NoN, [kind |-> "list", rs |-> <<>>]}
-              \cup {[kind |-> "list", rs |-> <<r>>] : r \in PerspResps("s1")}
+              \cup {[kind |-> "list", rs |-> <<r>>] : r \in PerspResps("s1") \cup NotarySelf}
+              \cup {[kind |-> "list", rs |-> <<a, b>>] : a \in NotarySelf, b \in {Resp("s1", 24, V1, Old0, "good")}}
               \cup {[kind |-> "list", rs |-> <<a, b>>] : a \in PerspResps("s1"),
                         b \in (IF Tier = "quick" THEN {r \in PerspResps("s2") : r.old = Old0 /\ r.vkeys = V1}
                                ELSE PerspResps("s2"))}}
@@ -104,8 +124,8 @@ SaneCheck == (phase = "done" /\ sc.mode = "check") =>
                 /\ (out.checks.all => sc.r.name = sc.expected /\ sc.r.vu > sc.now /\ out.keys # {})
                 /\ (~out.checks.all => out.keys = {})
 SanePubKey == (phase = "done" /\ sc.mode = "pubkey" /\ out.key # "-") =>
-                \/ (sc.kid = "k1" /\ sc.ts <= sc.r.vu)
-                \/ (sc.kid = "k0" /\ sc.ts < -48)
+                \/ (sc.kid \in Kids(sc.r.vkeys) /\ sc.ts <= sc.r.vu)
+                \/ (\E o \in sc.r.old : o.kid = sc.kid /\ sc.ts < o.exp)
 
 Emit == phase = "done" =>
     PrintT(ToJson(
